@@ -159,9 +159,11 @@ func TestVerifReplayGetData(t *testing.T) {
 		"whole list":                                              {{Elem: []*sdcpb.PathElem{{Name: "interface"}}}},
 		"container with a choice, an intent holds the other case": {{Elem: []*sdcpb.PathElem{{Name: "choices"}}}},
 		"intended: the entries of one intent, another intent holds the same leaf": {ifPath("ethernet-1/1")},
-		"two-key list, both keys":                 {{Elem: []*sdcpb.PathElem{{Name: "doublekey", Key: map[string]string{"key1": "a", "key2": "b"}}}}},
-		"two-key list, only the second key (= b)": {{Elem: []*sdcpb.PathElem{{Name: "doublekey", Key: map[string]string{"key2": "b"}}}}},
-		"unknown path":                            {{Elem: []*sdcpb.PathElem{{Name: "nosuchthing"}}}},
+		"two-key list, both keys":                                            {{Elem: []*sdcpb.PathElem{{Name: "doublekey", Key: map[string]string{"key1": "a", "key2": "b"}}}}},
+		"two-key list, only the second key (= b)":                            {{Elem: []*sdcpb.PathElem{{Name: "doublekey", Key: map[string]string{"key2": "b"}}}}},
+		"unknown path":                                                       {{Elem: []*sdcpb.PathElem{{Name: "nosuchthing"}}}},
+		"unknown key name of a list":                                         {{Elem: []*sdcpb.PathElem{{Name: "interface", Key: map[string]string{"nme": "ethernet-1/1"}}, {Name: "description"}}}},
+		"a key on a plain container":                                         {{Elem: []*sdcpb.PathElem{{Name: "choices", Key: map[string]string{"x": "y"}}}}},
 		"state data of a named (candidate) datastore, which holds none":      {ifPath("ethernet-1/1")},
 		"state data of the intended datastore, which holds none":             {ifPath("ethernet-1/1")},
 		"wildcard key, a leaf of every entry":                                {{Elem: []*sdcpb.PathElem{{Name: "interface", Key: map[string]string{"name": "*"}}, {Name: "description"}}}},
@@ -367,6 +369,12 @@ func TestVerifReplayGetData(t *testing.T) {
 			if strings.HasPrefix(rname, "state data of the intended") {
 				if err == nil || len(got) > 0 {
 					fmt.Printf("REPLAY-FAIL fn=%s clause=intended_state_is_refused input=%s why=err=%v, %d leaves returned\n", fn, in, err, len(got))
+				}
+				continue
+			}
+			if rname == "unknown key name of a list" || rname == "a key on a plain container" {
+				if err == nil || len(got) > 0 {
+					fmt.Printf("REPLAY-FAIL fn=%s clause=invalid_path_is_refused input=%s why=err=%v, %d leaves returned\n", fn, in, err, len(got))
 				}
 				continue
 			}
